@@ -220,6 +220,7 @@ class Extractor:
                     if n.targets[0].attr not in self.state_fields:
                         self.state_fields.append(n.targets[0].attr)
         self.depth = 0
+        self.raising_paths = []
 
     # -- entry ----------------------------------------------------------------------------
     def template(self, mname):
@@ -337,6 +338,7 @@ class Extractor:
                     raise AnalysisError('templates: loop over a symbolic sequence in %s line %d' % (m.qname, s.lineno))
             return out
         if isinstance(s, ast.Raise):
+            self.raising_paths.append((m, s, list(st.guards)))
             return []
         raise AnalysisError('templates: unsupported statement %s in %s line %d' % (type(s).__name__, m.qname, s.lineno))
 
@@ -495,7 +497,7 @@ class Extractor:
                     if isinstance(l, SInt) and isinstance(r, SInt) and l.field is None and r.field is None:
                         out.append((s3, _cmp(e.ops[0], l.off, r.off)))
                     else:
-                        out.append((s3, ('cond', norm(e))))
+                        out.append((s3, ('cond', norm(e), e.ops[0], l, r)))
             return out
         if isinstance(e, ast.UnaryOp) and isinstance(e.op, ast.Not):
             return [(s2, (not v) if isinstance(v, bool) else ('cond', norm(e))) for s2, v in self.ev(e.operand, st, m)]
@@ -775,6 +777,10 @@ class RenderError(Exception):
     pass
 
 
+class RenderRaises(RenderError):
+    """the emitter itself refuses the tree (a raise statement guards this shape)"""
+
+
 class TemplateSet:
     def __init__(self, repo, gen_cls=None, module='yp_generator'):
         self.repo = repo
@@ -830,16 +836,32 @@ class TemplateSet:
             return not self._val(expr.operand, env)
         raise RenderError('cannot evaluate %s on a sample tree' % norm(expr))
 
+    def _state_val(self, v, ind, loop):
+        if isinstance(v, SInt):
+            if v.field is None:
+                return v.off
+            return (loop if v.field == 'loop_level' else ind) + v.off
+        if isinstance(v, tuple) and v and v[0] == 'global':
+            r = self.repo.module_binding(self.gen_cls.module, v[1])
+            if r and r[0] == 'var' and isinstance(r[2], ast.Constant):
+                return r[2].value
+        return None
+
     def _guard_ok(self, g, env, ind, loop):
         v = g.value
         if isinstance(v, Doc):
             t = bool(self.render_doc(v, env, ind, loop))
+        elif isinstance(v, tuple) and v and v[0] == 'cond' and len(v) == 5 and \
+                self._state_val(v[3], ind, loop) is not None and self._state_val(v[4], ind, loop) is not None:
+            t = _cmp(v[2], self._state_val(v[3], ind, loop), self._state_val(v[4], ind, loop))
         else:
             t = bool(self._val(g.test, env))
         return t == g.polarity
 
     def choose(self, alts, env, ind, loop):
         ok = [(gs, d, net) for gs, d, net in alts if all(self._guard_ok(g, env, ind, loop) for g in gs)]
+        if not ok and self.ex.raising_paths:
+            raise RenderRaises('the emitter raises (%s)' % norm(self.ex.raising_paths[0][1]))
         if len(ok) != 1:
             raise RenderError('%d alternatives apply' % len(ok))
         return ok[0]
